@@ -5,7 +5,7 @@ set -u
 export GOFLAGS=-mod=mod GOPROXY=off GOSUMDB=off GOTOOLCHAIN=local
 D=$1; W=${MUTW:-/tmp/mutrepo2}; [ -d $W ] || git -C /repo worktree add -q --detach $W HEAD
 git -C $W checkout -q --detach $(git -C /repo rev-parse HEAD) && git -C $W checkout -q -- . && git -C $W clean -fdq
-place=$(python3 -c "import json;print(json.load(open('$D/meta.json'))['demo']['place_at'])")
+place=$(python3 -c "import json;print(json.load(open('$D/meta.json'))['demo']['place_at'].split()[0])")
 run=$(python3 -c "import json;print(json.load(open('$D/meta.json'))['demo']['run'])")
 pkgs=$(python3 -c "
 import json,os
@@ -19,6 +19,6 @@ git -C $W apply $D/patch.diff || { echo "PATCH DOES NOT APPLY"; exit 2; }
 echo "== build with patch"; (cd $W && go build ./... 2>&1 | tail -3)
 echo "== demo with patch"; (cd $W && eval "$run" 2>&1 | tail -4)
 rm -f $W/$place
-echo "== tests with patch: $pkgs ."; (cd $W && go test -count=1 $pkgs . 2>&1 | tail -6)
-if echo "$pkgs" | grep -q "internal/engine"; then echo "== engine integration tests"; (cd $W && go test -count=1 ./internal/integration_test/engine/ 2>&1 | tail -2); fi
+[ -n "${DEMOONLY:-}" ] || { echo "== tests with patch: $pkgs ."; (cd $W && go test -count=1 $pkgs . 2>&1 | tail -6)
+if echo "$pkgs" | grep -q "internal/engine"; then echo "== engine integration tests"; (cd $W && go test -count=1 ./internal/integration_test/engine/ 2>&1 | tail -2); fi; }
 git -C $W checkout -q -- . ; git -C $W clean -fdq
